@@ -1,3 +1,4 @@
+import SieveModel.Generated.MsConsts
 import SieveModel.Lemmas.ClientState
 import SieveModel.Lemmas.Rename
 /-!
@@ -179,5 +180,8 @@ example : WF ⟨[(sb "a", sb "keep;"), (sb "old", sb "stop;"), (sb "z", [])], so
   have : a = sb "old" := (Option.some.inj ha).symm
   subst this
   decide
+
+/-- the regular expressions `sievelib/managesieve.py` uses now are the ones the model implements -/
+theorem client_patterns_are_the_modelled_ones : Generated.clientPatterns = Client.patterns := by decide
 
 end C14
